@@ -158,8 +158,8 @@ func (rangeKillEngine) Run(ctx *fw.Ctx, cs any) {
 	}
 	cmd := exec.Command(self)
 	if c.KillWrite > 0 {
-		st, err := exec.LookPath("strace")
-		if err != nil {
+		st, ok := straceUsable()
+		if !ok {
 			ctx.Count("rangekill.strace_unavailable", 1)
 			return
 		}
